@@ -95,6 +95,7 @@ func (u *fetchUnit) memoryAccess(r fuReq) error {
 func (u *fetchUnit) reset(pc int32, cleanPending bool) {
 	u.ctx.IncSequenceID()
 	u.Reset()
+	u.complete = false
 	u.pc = pc
 	u.toCleanPending = cleanPending
 }
